@@ -57,6 +57,8 @@ def service_arms(ir, cfg):
                     % (n, fm, n, fm, n, mod, n))
         arms.append('        "%s/async" => Some(labrt::svc::run_call_async(&c.call_spec(), %s::verif_endpoints_async_%s, |lb, m, a| labrt::block_on(%s::verif_call_async_%s(&<%s::%sAsyncClient<_> as conjure_http::client::AsyncService<_>>::new(lb), m, a)))),'
                     % (n, fm, n, fm, n, mod, n))
+        arms.append('        "%s/raw-sync" => Some(labrt::svc::run_raw_sync(&c.raw_spec(), %s::verif_endpoints_sync_%s)),' % (n, fm, n))
+        arms.append('        "%s/raw-async" => Some(labrt::svc::run_raw_async(&c.raw_spec(), %s::verif_endpoints_async_%s)),' % (n, fm, n))
     return arms
 
 
